@@ -50,6 +50,15 @@ PROPS = {
         "design_ref": "§6 C06 zone lookups · C20 zone store · C21 validation · C22 catalog",
         "technique": "Lean 4 proof: validate (as a set) = issues of a reference checker stated as a predicate over the flat record list; severity split extracted from ValidationIssue::is_error (tools/extract_validation.py); correspondence on random and exhaustive zones under both glue policies and classes IN/CH/HS",
     },
+    "C22": {
+        "groups": ["catalog"],
+        "design_ref": "§6 C06 zone lookups · C20 zone store · C21 validation · C22 catalog",
+        "technique": "Lean 4 proof: the catalog tree refines a finite map (class × case-folded name) ⇀ entry for every history of inserts/removes (invariant + abstraction function; lookup = longest suffix, get = exact, iter = permutation of the bindings, frame theorems for remove/insert); model tied to src/db/hash_map_tree/catalog.rs, src/db/catalog.rs, src/db/single_zone_catalog.rs by whole-history differential correspondence incl. exhaustive histories over 4 nested names",
+        "evidence_notes": [
+            "one case = one whole history; every step's result (returned entry, lookup, get, sorted iter) is compared; Loaded entries are checked for Arc pointer identity with the zone inserted",
+            "quick: all histories of <= 5 inserts/removes over the chain . a. b.a. c.b.a. and <= 4 over the tree a. b.a. c.a. d.b.a.; thorough: <= 5 over both",
+        ],
+    },
 }
 
 TRUSTED_BASE = [
